@@ -17,7 +17,9 @@
 (* recomputed here.  A table miss stops TLC with an Assert (infrastructure error).   *)
 (* Every line is judged on its own against the last Params/Epoch lines; in addition  *)
 (* consecutive slots of one epoch must differ by exactly one rotation step at        *)
-(* rotation boundaries and not at all otherwise.                                     *)
+(* rotation boundaries and not at all otherwise.  The permutation property of long   *)
+(* outputs (> 64 elements) is evaluated only when the output differs from F (an       *)
+(* output equal to F's is a permutation by the model-checked InvPerm / InvDup).       *)
 EXTENDS ShuffleDefs, Json, SequencesExt
 CONSTANTS TraceFile, ResultFile, KnownDeviations
 VARIABLES l, devs, bad, par, sh, last
@@ -27,8 +29,9 @@ Why(c, s) == IF c THEN {s} ELSE {}
 
 JudgeFy(e) ==
   IF e.panic = 1 THEN {"panic:FisherYatesShuffle"}
-  ELSE Why(e.got # F(e.s, e.r), "fisher_yates_differs_from_F1")
-       \cup Why(~SameMultiset(e.got, e.s), "output_not_a_permutation")
+  ELSE LET want == F(e.s, e.r) IN
+       Why(e.got # want, "fisher_yates_differs_from_F1")
+       \cup Why((Len(e.s) <= 64 \/ e.got # want) /\ ~SameMultiset(e.got, e.s), "output_not_a_permutation")
 
 JudgeNseq(e) ==
   IF e.panic = 1 THEN {"panic:numericSequenceFromHash"}
@@ -36,8 +39,9 @@ JudgeNseq(e) ==
 
 JudgeShuffle(e) ==
   IF e.panic = 1 THEN {"panic:Shuffle"}
-  ELSE Why(e.got # ShuffleH(e.s, e.h, e.tab), "shuffle_differs_from_F3")
-       \cup Why(~SameMultiset(e.got, e.s), "output_not_a_permutation")
+  ELSE LET want == ShuffleH(e.s, e.h, e.tab) IN
+       Why(e.got # want, "shuffle_differs_from_F3")
+       \cup Why((Len(e.s) <= 64 \/ e.got # want) /\ ~SameMultiset(e.got, e.s), "output_not_a_permutation")
 
 JudgeRot(e) ==
   IF e.panic = 1 THEN {"panic:rotateCores"}
